@@ -217,6 +217,9 @@ class Gen:
 # printing
 
 
+INHERIT_COMMENTS = True
+
+
 def _print_bindings(bs, ind, out):
     pad = " " * ind
     for b in bs:
@@ -225,11 +228,20 @@ def _print_bindings(bs, ind, out):
         elif b.kind == "ref":
             out.append(f"{pad}{b.name} = {b.value};")
         elif b.kind == "inherit":
-            out.append(f"{pad}inherit {b.name};")
+            note = "/* n */ " if INHERIT_COMMENTS and b.uid % 4 == 1 else ""
+            out.append(f"{pad}inherit {note}{b.name};")
         elif b.kind == "inherit_from":
-            # now and then a quoted name listed in front of the referenced one (uid-derived, stable per document)
+            # now and then a quoted name listed in front of the referenced one (uid-derived, stable per document),
+            # or a comment in front of the referenced name
             decoy = '"x-y" ' if b.uid % 3 == 0 else ""
-            out.append(f"{pad}inherit ({b.value}) {decoy}{b.name};")
+            if INHERIT_COMMENTS and b.uid % 4 == 1:
+                out.append(f"{pad}inherit ({b.value}) {decoy}")
+                out.append(f"{pad}  # note")
+                out.append(f"{pad}  {b.name};")
+            elif INHERIT_COMMENTS and b.uid % 4 == 2:
+                out.append(f"{pad}inherit ({b.value}) {decoy}/* n */ {b.name};")
+            else:
+                out.append(f"{pad}inherit ({b.value}) {decoy}{b.name};")
         elif b.kind == "set":
             lit = b.value
             out.append(f"{pad}{b.name} = {'rec ' if lit.rec else ''}{{")
